@@ -558,7 +558,7 @@ func TestVF_C48(t *testing.T) {
 		"0..4 closed intervals from chunk edges / sample timestamps +-1 / single timestamps / +-inf; 1 in 5 requests deletes whole series); part A: real DeletionModifier.Modify over chunk series, " +
 		"part B: Compactor.WriteSeries on a real TSDB block, output block read back; oracle per input sample: outside every interval of every request whose matchers match (absent label = empty string) => present with the same value; " +
 		"inside an interval of a request whose matchers all match labels the series carries => absent; nothing fabricated; distinct = hash of series+requests; non-trivial = some series lost some but not all samples")
-	nA := r.N(3000, 60000)
+	nA := r.N(3000, 100000)
 	nB := r.N(40, 300)
 	r.Require(int64(nA+nB)*9/10, nA/4)
 	r.Assume("a rewrite that returns an error produced no output and is not judged (counted as rewrite_errors)")
